@@ -126,6 +126,33 @@ def alias_history(rng, rx=None):
     ops.append("T dump")
     return ops
 
+def wrap_history(rng):
+    """places where a plain difference of coordinates is not a distance: a flight across the 180-degree meridian (eastbound or westbound, at
+    several latitudes), and hops over a polar cap (same latitude, longitude 180 degrees apart: 89 km at 89.6 degrees). Every step is within the
+    jump limit and in range, so every pair must be published"""
+    ops = []
+    if rng.chance(2, 3):
+        lat0 = rng.choice([0.5, 35.0, -40.0, 64.0, -17.3]); sgn = rng.choice([-1, 1])
+        rx = (lat0, 179.9 * sgn)
+        ops.append("T reset %s %s 500" % rx)
+        f = Flight(rng, rng.bits(24), rx, plain=True)
+        f.lat = Fr(lat0) + Fr(1, 10); f.lon = Fr(1799, 10) * sgn if sgn > 0 else Fr(-1799, 10)
+        odd = rng.below(2)
+        for k in range(24):
+            ops.append(hexop("T act", f.position(rng, odd=odd))); odd ^= 1
+            f.lon = ((f.lon + Fr(15, 1000) * sgn + 180) % 360) - 180               # towards and across the meridian
+    else:
+        s = rng.choice([-1, 1]); rx = (89.5 * s, rng.choice([0.0, 10.0, -100.0]))
+        ops.append("T reset %s %s 500" % rx)
+        f = Flight(rng, rng.bits(24), rx, plain=True)
+        f.lat = Fr(896, 10) * s; lon0 = Fr(rng.below(360) - 180)
+        for hop in (0, 180, 1, 181):
+            f.lon = ((lon0 + hop + 180) % 360) - 180
+            o = rng.below(2)
+            ops.append(hexop("T act", f.position(rng, odd=o))); ops.append(hexop("T act", f.position(rng, odd=1 - o)))
+    ops.append("T dump")
+    return ops
+
 def history(rng, n_ops, n_planes=4, with_time=True, rx=None, rng_range=None, addrs=None):
     rx = rx or rng.choice([(39.0, -77.0), (52.3, 4.8), (-33.9, 151.2), (69.7, 19.0), (0.5, 179.5), (64.1, -21.9)])
     rng_range = rng_range or rng.choice([500, 500, 300, 150, 1000, 800, 1500])
